@@ -8,7 +8,7 @@ INT_TYPES = {'u8': (8, False), 'u16': (16, False), 'u32': (32, False), 'u64': (6
 
 class MirFn:
     __slots__ = ('name', 'argc', 'arg_types', 'ret_type', 'local_types', 'blocks', 'raw', 'parsed', 'kind',
-                 'closure_span', 'lineno', 'nstmts')
+                 'closure_span', 'lineno', 'nstmts', '_arity')
 
     def __init__(self, name, raw, kind, lineno):
         self.name, self.raw, self.kind, self.lineno = name, raw, kind, lineno
